@@ -17,109 +17,67 @@ def chain_methods(n):
     return list(reversed(out)), n
 
 
-def r1(ctx):
-    """conservation: every buffered row is put into exactly one partition"""
+def _partition(ctx, rows, group=("g", "h")):
+    """partition_output_buffer evaluated (finite interpreter) on a buffer of rows (maps from expression text to value)"""
+    import interp
+    from extra import _expr_dict
     hir = ctx.anchor_hir(PART)
-    its = [it for it in find_iterations(hir) if "raw_output_buffer" in render(it["iter"])]
-    if len(its) != 1:
-        ctx.violation("anchor/partition-iteration", PART, "iteration over raw_output_buffer not found")
-        raise Abort()
-    it = its[0]
-    ms, root = chain_methods(it["iter"])
-    ok = not (set(ms) & FILTERS) and render(root) == "self.raw_output_buffer"
-    ctx.obligation(ok)
-    if not ok:
-        ctx.violation("partition/iteration", ctx.where(PART, it["node"]), "the partitioning must visit every buffered row (%s)" % ms)
-    body = it["body"]
-    row_ids = set(pat_binders(it["pat"]))
+    ps = ctx.prog.fns[PART]["params"]
 
-    def mentions_row(n):
-        return any(x["k"] == "Path" and x.get("rk") == "Local" and x["res"] in row_ids for x in walk_exprs(n))
+    def tagged(t):
+        d = _expr_dict(interp, val=interp.some(t))
+        d["__tag"] = t
+        return d
 
-    def insertions(n):
-        return [c for c in walk_exprs(n) if c["k"] == "MCall" and c["m"] in ("push", "insert") and any(mentions_row(a) for a in c["args"])]
-
-    def paths(n):
-        """number of insertions of the row on each path through n; -100 marks a path that leaves early"""
-        n = peel(n, methods=False)
-        if n["k"] == "Block":
-            tot = [0]
-            for s_ in n["stmts"] + ([n["expr"]] if "expr" in n else []):
-                r = paths(s_)
-                tot = [a_ + b_ for a_ in tot for b_ in r]
-            return tot
-        if n["k"] == "If":
-            t = paths(n["t"])
-            e = paths(n["e"]) if "e" in n else [0]
-            c = len(insertions(n["c"]))
-            return [c + x for x in t + e]
-        if n["k"] in ("Ret", "Break", "Continue"):
-            return [-100]
-        if n["k"] == "Match" and n.get("src") == "Normal":
-            out = []
-            c = len(insertions(n["scrut"]))
-            for a_ in n["arms"]:
-                out += [c + x for x in paths(a_["body"])]
-            return out
-        if n["k"] == "Let" and n.get("init") is not None:
-            return paths(n["init"])
-        return [len(insertions(n))]
-
-    ps = paths(body)
-    ok = all(p == 1 for p in ps)
-    ctx.obligation(ok)
-    ctx.covered("paths through the per-row partitioning body, insertions of the row on each", len(ps), distinct_keys=["paths:%d" % len(ps)],
-                sample={"insertions_per_path": ps}, exhaustive=True)
-    if not ok:
-        ctx.violation("partition/conservation", ctx.where(PART, body),
-                      "a row must be inserted into exactly one partition on every path; insertions per path: %s" % ps)
-    # existing key -> the row is pushed onto that key's partition; new key -> a new partition holding this row
-    ins = insertions(body)
-    pushes = [c for c in ins if c["m"] == "push"]
-    news = [c for c in ins if c["m"] == "insert"]
-    ok = len(pushes) == 1 and len(news) == 1
-
-    def side(c):
-        """'hit' / 'miss' / None: under which outcome of the key lookup the call runs"""
-        for g in guards_of(body, c) or []:
-            if g[0] == "if" and g[1]["k"] != "LetE" and "contains_key" in render(g[1]):
-                neg = render(peel(g[1], methods=False)).startswith("!")
-                return "hit" if (g[2] != neg) else "miss"
-            if g[0] == "if" and g[1]["k"] == "LetE" and any(w in render(g[1]["init"]) for w in ("get_mut", ".get(")):
-                return "hit" if ("Some" in render_pat(g[1]["pat"])) == g[2] else "miss"
-            if g[0] == "match" and any(w in render(g[1]) for w in ("get_mut", ".get(", "entry(")):
-                return "hit" if "Some" in render_pat(g[2]) or "Occupied" in render_pat(g[2]) else "miss"
+    def call(node, recv, args, it, env):
+        if node.get("m") == "to_string" and isinstance(recv, dict) and "__tag" in recv:
+            return (recv["__tag"],)
         return None
-    if ok:
-        ok = side(pushes[0]) == "hit" and side(news[0]) == "miss" and "key" in render(news[0]["args"][0]) and \
-            ("get_mut" in render(pushes[0]["recv"]) or root_local(pushes[0]["recv"]) is not None)
-    ctx.obligation(ok)
-    if not ok:
-        ctx.violation("partition/branches", ctx.where(PART, body), "an existing key must receive the row, a new key must start a partition with it")
+    selfv = {"query": {"grouping_fields": [tagged(t) for t in group]}, "raw_output_buffer": [interp.HMap(r) for r in rows]}
+    got = interp.Interp(call=call, prog=ctx.prog, max_steps=60000).run(hir, {ps[0]["id"]: selfv})
+    if not isinstance(got, interp.HMap):
+        raise interp.Undecided("partition_output_buffer does not build a map (%r)" % (got,))
+    return {tuple(k) if isinstance(k, (list, tuple)) else k: [dict(r) for r in v] for k, v in got.items()}
+
+
+def r1(ctx):
+    """conservation and keying: partition_output_buffer evaluated on small buffers: every buffered row lands in exactly one
+    partition, the partition of its values of all grouping expressions in order (a row without a value goes under the empty
+    text), rows keep their order within a partition"""
+    import interp
+    import itertools
+    n = 0
+    vals = ("a", "b")
+    rows_domain = [{"g": x, "h": y, "id": "%s%s" % (x, y)} for x in vals for y in vals] + [{"h": "a", "id": "-a"}, {"id": "--"}, {"g": "", "h": "", "id": "empty"}]
+    bad = None
+    try:
+        for ln in range(0, 4):
+            for combo in itertools.product(range(len(rows_domain)), repeat=ln):
+                rows = [dict(rows_domain[i], n=str(k)) for k, i in enumerate(combo)]
+                got = _partition(ctx, rows)
+                n += 1
+                want = {}
+                for r in rows:
+                    want.setdefault((r.get("g", ""), r.get("h", "")), []).append(r)
+                if got != want and bad is None:
+                    kind = "conservation" if sorted(map(repr, sum(got.values(), []))) != sorted(map(repr, rows)) else "key"
+                    bad = (kind, "the rows %s are partitioned as %s, expected %s" % ([(r.get("g"), r.get("h")) for r in rows], {k: len(v) for k, v in got.items()}, {k: len(v) for k, v in want.items()}))
+                if bad:
+                    break
+            if bad:
+                break
+    except interp.Undecided as e:
+        bad = ("unreadable", "cannot evaluate partition_output_buffer: %s" % e)
+    ctx.obligation(bad is None)
+    if bad:
+        ctx.violation("partition/%s" % bad[0], ctx.where(PART), "every buffered row must enter exactly one partition, the one of its values of all grouping expressions in order: %s" % bad[1])
+    ctx.covered("partition_output_buffer evaluated on every buffer of <= 3 rows over 5 row shapes (two grouping expressions)", n, distinct_keys=["conservation", "key"], exhaustive=True)
+    ctx.floor(n, 100, "partition evaluations", PART)
 
 
 def r2(ctx):
-    """the key is built from all grouping expressions, which check_file evaluates for every row"""
-    hir = ctx.anchor_hir(PART)
-    locs = Locals(hir)
-    gf = [x for x in walk(hir) if x["k"] == "Let" and x["pat"].get("name") == "group_fields"]
-    ok = len(gf) == 1
-    if ok:
-        ms, root = chain_methods(gf[0]["init"])
-        ok = not (set(ms) & FILTERS) and render(root) == "self.query.grouping_fields" and "map" in ms
-    ctx.obligation(ok)
-    if not ok:
-        ctx.violation("key/grouping-fields", ctx.where(PART), "the partition key must use every grouping expression")
-    keys = [x for x in walk(hir) if x["k"] == "Let" and x["pat"].get("name") == "key"]
-    ok = len(keys) == 1
-    if ok:
-        ms, root = chain_methods(keys[0]["init"])
-        ok = not (set(ms) & FILTERS) and render(root) == "group_fields" and "map" in ms
-        cl = [c for c in walk_exprs(keys[0]["init"]) if c["k"] == "Closure"]
-        ok = ok and cl and "item.get(f)" in render(cl[0]["body"])
-    ctx.obligation(ok)
-    if not ok:
-        ctx.violation("key/construction", ctx.where(PART), "the key of a row must be the row's values of all grouping expressions, in order")
+    """the rows carry the grouping expressions: check_file evaluates every grouping expression into the buffered row (the key
+    construction itself is decided by the evaluation of partition_output_buffer in C08-R1, the row by X-PIPELINE)"""
     ch = ctx.anchor_hir(CHECK_FILE)
     ok = False
     for x in walk_exprs(ch):
@@ -130,7 +88,7 @@ def r2(ctx):
     ctx.obligation(ok)
     if not ok:
         ctx.violation("key/evaluated-per-row", ctx.where(CHECK_FILE), "check_file must evaluate every grouping expression into the buffered row")
-    ctx.covered("partition key construction (grouping list, per-row key, per-row evaluation)", 3, distinct_keys=["fields", "key", "row"])
+    ctx.covered("per-row evaluation of the grouping expressions in check_file", 1, distinct_keys=["row"])
 
 
 def r3(ctx):
